@@ -541,6 +541,8 @@ func (w *World) GenerateSpecs() error {
 			q := ctx.quants[k]
 			fmt.Fprintf(&body, "func %s(f func(x %s) bool) bool { return f == nil }\n", k, q.Type)
 		}
+		// a closed fact may leave the input it fails on here; the evaluation prints it as the witness
+		body.WriteString("var specWitness string\n")
 		body.WriteString("func spec_imp(a, b bool) bool { return !a || b }\n")
 		body.WriteString("func spec_ref(x interface{}) {}\n")
 		body.WriteString("func spec_fresh(x interface{}) bool { return x == nil }\n")
